@@ -36,7 +36,7 @@ def gen_cases(tier, seed):
     cases = [{"kind": "alloc", "seed": int(rng.integers(2**31)), "zeros": ["none", "vl", "cl", "both", "none"][i % 5]} for i in range(na)]
     for i in range(nb):
         cases.append({"kind": "run", "seed": int(rng.integers(2**31)), "profile": ["geometric", "plateau", "zero-variance-level", "cost-spike", "slow-decay"][i % 5],
-                      "rmse_exp": float(rng.uniform(-2.0 if tier == "thorough" else -1.4, -0.2)), "L0": int(rng.choice([2, 2, 3, 4])),
+                      "rmse_exp": float(rng.uniform(-2.0 if tier == "thorough" else -1.4, -0.2)), "L0": int(rng.choice([0, 1, 2, 2, 3, 4])),
                       "N0": int(rng.choice([2, 5, 20, 100])), "Lmax_extra": int(rng.integers(0, 6)), "beta": float(rng.uniform(0.6, 2.2)),
                       "alpha": float(rng.uniform(0.5, 1.5)), "rates_given": bool(i % 3 != 0), "scale": float(rng.choice([1.0, 30.0])),
                       "budget": 2_000_000 if tier == "thorough" else 150_000})
